@@ -362,6 +362,38 @@ def _peel(t):
     return t
 
 
+def _list_built_by_loop(t):
+    """(source, item) when t is a list grown from empty by exactly one unconditional append of `item` per element of `source`"""
+    t = _peel(t)
+    if t.op == "loopout" and t.args[2].op == "list" and not t.args[2].args[0] and len(t.args[3]) == 1 and t.args[1].op == "elem":
+        v = _peel(t.args[3][0])
+        if v.op == "listappend" and v.args[0].op == "loopvar" and v.args[0].args[0] == t.args[0]:
+            return t.args[1].args[0], v.args[1]
+    return None
+
+
+def _segments(src):
+    """src as a sequence of (condition or None, list) pieces walked one after the other; None when src is not of such a form"""
+    src = _peel(src)
+    if src.op == "binop" and src.args[0] == "+":
+        a, b = _segments(src.args[1]), _segments(src.args[2])
+        return a + b if a is not None and b is not None else None
+    if src.op == "ite":
+        c, x, y = src.args
+        x, y = _peel(x), _peel(y)
+        if y.op == "binop" and y.args[0] == "+" and y.args[1] is x:
+            rest = _segments(y.args[2])
+            return [(None, x)] + [(neg(c) if cc is None else conj([neg(c), cc]), X) for cc, X in rest] if rest is not None else None
+        if x.op == "binop" and x.args[0] == "+" and x.args[1] is y:
+            rest = _segments(x.args[2])
+            return [(None, y)] + [(c if cc is None else conj([c, cc]), X) for cc, X in rest] if rest is not None else None
+        # `None if c else Z`: walking None raises, so wherever the walk happens the value is Z
+        if x is NONE or y is NONE:
+            rest = _segments(y if x is NONE else x)
+            return rest
+    return [(None, src)]      # any other iterable: one piece
+
+
 def _is_table(t):
     return t.op in ("tuple", "list") and 1 <= len(t.args[0]) <= 6 and all(x.op in ("tuple", "list") for x in t.args[0])
 
@@ -583,6 +615,8 @@ class Evaluator:
                     if cls_ctx is None:
                         cls_ctx = self._frames[i][1]
                     break
+        if kind == "store" and data.get("tkind") == "name":
+            data["scope"] = fi.fq      # the function whose local this is (a helper's locals are not the caller's, whatever their names)
         ev = Event(
             self._seq, kind, st.pc, node, owner if owner is not None else fi.fq, cls_ctx,
             tuple(f[2] for f in self._frames if f[2] is not None), tuple(self._loops), data,
@@ -917,6 +951,33 @@ class Evaluator:
             for cond, alt in ((c, it.args[1]), (neg(c), it.args[2])):
                 out.extend(self._for_over(s, st.fork(cond), alt, depth + 1))
             return self._join(out)
+        # `rows = []; for x in XS: rows.append(f(x))` ... `for r in rows: BODY`  is  `for x in XS: r = f(x); BODY`, and a walk over
+        # `A + B` (or over `A if c else A + B`: A, then B unless c) is the walk over A followed by the walk over B
+        built = _list_built_by_loop(it)
+        if built is not None and not s.orelse and not _direct_jumps(s.body, (ast.Break,)):
+            src, item = built
+            segs = _segments(src)
+            if segs is not None:
+                cur = st
+                out = []
+                for cond, X in segs:
+                    elX = mk("elem", X)
+                    it_item = substitute(item, {mk("elem", src): elX}) if X is not src else item
+
+                    def bind_b(bst, it_item=it_item):
+                        self._assign(s.target, it_item, bst, s, loop_target=True)
+                    run_st = cur if cond is None else cur.fork(cond)
+                    lev = self._emit("loop", s, run_st, iter=X, elem=elX)
+                    exs = self._loop(s, run_st, s.body, [], elX, bind_b, lev)
+                    if cond is not None:
+                        exs = exs + [_Exit("fall", cur.fork(neg(cond)))]
+                    exs = self._join(exs)
+                    falls = [e for e in exs if e.kind == "fall"]
+                    out.extend(e for e in exs if e.kind != "fall")
+                    if not falls:
+                        return out
+                    cur = falls[0].state
+                return out + [_Exit("fall", cur)]
         # `kept = {k: v for k, v in D.items() if c}` ... `for k, v in kept.items(): BODY`  is  `for k, v in D.items(): if c: BODY`
         # (a dict comprehension keeps the order of its source; the keys of D.items() are distinct, so nothing is overwritten)
         if it.op == "call" and it.args[0].op == "attr" and it.args[0].args[1] == "items" and not it.args[1] and not it.args[2] and not s.orelse:
@@ -962,7 +1023,11 @@ class Evaluator:
         # ... and the search idiom `for cand in (A, B): if test(cand): return v` (then a raise / default after the loop)
         search = it.op in ("tuple", "list") and 1 <= len(it.args[0]) <= 6 and isinstance(s.target, ast.Name) \
             and _direct_jumps(s.body, (ast.Return,))
-        if (table or search) and not s.orelse and not _direct_jumps(s.body, (ast.Break, ast.Continue)):
+        # ... and the alias loop `for opt in (self.a, self.b): opt.step()` over a few objects (not a loop over constants, which
+        # enumerates cases and is summarised as a loop)
+        alias = it.op in ("tuple", "list") and 1 <= len(it.args[0]) <= 4 and isinstance(s.target, ast.Name) \
+            and all(x.op in ("attr", "param", "loopvar", "sub", "new") for x in it.args[0])
+        if (table or search or alias) and not s.orelse and not _direct_jumps(s.body, (ast.Break, ast.Continue)):
             cur = st
             out = []
             for item in it.args[0]:
